@@ -603,7 +603,7 @@ func (self *LockManager) AddLock(lock *Lock) *Lock {
 	if lock.command.Flag&protocol.LOCK_FLAG_FROM_AOF != 0 {
 		lock.isAof = true
 	} else {
-		if lock.command.TimeoutFlag&protocol.TIMEOUT_FLAG_REQUIRE_ACKED != 0 {
+		if lock.command.TimeoutFlag&protocol.TIMEOUT_FLAG_REQUIRE_ACKED != 0 && lock.aofTime != 0xff {
 			lock.ackCount = 0
 		}
 	}
